@@ -661,12 +661,46 @@ def equiv_exp_case(markers=(">=", ">=")):
   return res
 
 
+def int_spelling_case():
+  """Concrete side layer: distances written as whole numbers (the grammar yields python ints for '1 2 3') give the
+  same spline as the float spelling, through as.buck4, the spline() modifier and the Python classes, and the joins hold."""
+  res = new_result("whole-number spellings of detach/r_min/attach (concrete)")
+  from atsim.potentials.config import Configuration
+  from atsim.potentials import potentialforms as pfm
+  from atsim.potentials.spline import Buck4_SplinePotential, SplinePotential
+  bad = []
+  for (A, rho, C) in ((1000.0, 0.3, 30.0), (11272.6, 0.1363, 134.0)):
+    for (d, m, a) in ((1, 2, 3), (2, 3, 5)):
+      txt = ("[Tabulation]\ntarget : LAMMPS\ncutoff : 6.0\nnr : 7\n\n[Pair]\nA-A : as.buck4 %r %r %r %d %d %d\nA-B : as.buck4 %r %r %r %r %r %r\n"
+             "B-B : spline(as.buck %r %r 0.0 >%d buck4_spline %d >%d as.buck 0.0 1.0 %r)\nB-C : spline(>0 as.buck %r %r 0.0 >=%d exp_spline >=%d as.buck 900.0 0.4 0.0)\n"
+             "C-C : spline(>0 as.buck %r %r 0.0 >=%r exp_spline >=%r as.buck 900.0 0.4 0.0)\n") % (
+        A, rho, C, d, m, a, A, rho, C, float(d), float(m), float(a), A, rho, d, m, a, C, A, rho, d, a, A, rho, float(d), float(a))
+      tab = Configuration().read(io.StringIO(txt))
+      P = {(p.speciesA, p.speciesB): p.potentialFunction for p in tab.potentials}
+      ref = Buck4_SplinePotential(pfm.buck(A, rho, 0.0), pfm.buck(0.0, 1.0, C), float(d), float(a), float(m))
+      p_int_api = Buck4_SplinePotential(pfm.buck(A, rho, 0.0), pfm.buck(0.0, 1.0, C), d, a, m)
+      xs = [0.5 * d, d, 0.5 * (d + m), m, 0.5 * (m + a), a, a + 0.7]
+      for x in xs:
+        for nm, p in (("as.buck4 with whole numbers", P[("A", "A")]), ("as.buck4 with floats", P[("A", "B")]), ("spline() with whole numbers", P[("B", "B")]),
+                      ("Buck4_SplinePotential with ints", p_int_api)):
+          if not _close(p(x), ref(x), 1e-9, 1e-12):
+            bad.append("%s gives %r at r=%r, the float spelling through the Python class %r (A=%r rho=%r C=%r, %d/%d/%d)" % (nm, p(x), x, ref(x), A, rho, C, d, m, a))
+        if not _close(P[("B", "C")](x), P[("C", "C")](x), 1e-9, 1e-12):
+          bad.append("exp_spline with whole-number starts gives %r at r=%r, with float starts %r" % (P[("B", "C")](x), x, P[("C", "C")](x)))
+      res["paths"] += 1
+      res["replays"] += 1
+  for b in bad[:3]:
+    res["violations"].append(dict(key="integer-spelling", desc=b))
+  return res
+
+
 def cases(tier, seed=0):
   TT, FF, TF = (True, True), (False, False), (True, False)
   cs = [Case("exp TT/TT", exp_case, avS=TT, avE=TT), Case("exp FF/FF", exp_case, avS=FF, avE=FF),
         Case("buck4 TT/TT", buck4_case, avS=TT, avE=TT), Case("buck4 FF/FF", buck4_case, avS=FF, avE=FF),
         Case("buck4 TT/TT history", buck4_case, avS=TT, avE=TT, history=True),
         Case("exp TT/TT history", exp_case, avS=TT, avE=TT, history=True),
+        Case("integer spellings", int_spelling_case),
         Case("equiv buck4", equiv_buck4_case), Case("equiv exp >= >=", equiv_exp_case, markers=(">=", ">="))]
   if tier == "thorough":
     for (x, y) in ((TT, FF), (FF, TT), (TF, TF), (TF, TT)):
